@@ -1,4 +1,6 @@
 import VelaVerif.Lemmas.NpuOpBuild
+import VelaVerif.Lemmas.NpuOpBuildExample
+import VelaVerif.Handlers.NpuOpBuild
 /-!
 # C06, the link in front of the register generator: scheduled operation → `NpuOperation`
 
@@ -391,5 +393,75 @@ theorem activation_clamp_override_preserved (fo : FloatOps) (op : OpD) (b : Bloc
         exact ⟨rfl, rfl, hrelu, hsame _ _ hmin, hsame _ _ hmax⟩
     · rename_i hs
       rw [hs] at hsc; cases hsc
+
+/-! ## non-vacuity: the hypotheses are met by real commands of compiled networks
+
+`Lemmas/NpuOpBuildExample.lean` is generated (`tools/hl2npu_example.py`) from request lines captured while compiling generated
+networks; `floatOps` are the exact IEEE operations of the protocol handler. -/
+
+open VelaVerif.NpuOpBuild.Example
+open VelaVerif.Handlers.NpuOpBuild (floatOps)
+
+/-- (b) `SUB(a[4] constant-like first operand, b[1,1,16,4])` on ethos-u55-32: the builder swaps the operands itself; IFM gets
+    B's quantisation (zero point 59), IFM2 gets A's (zero point 6) — the two differ, so the stale-local defect would show -/
+example : elementwiseOpMap Example.swap.op.type = some 1 ∧ isUnaryEw 1 = false ∧ Example.swap.reversedOperands = false := by
+  decide +kernel
+
+example : (createElementwise floatOps Example.swap swapArch).toOption.map
+      (fun b => (b.reversed, b.ifm.fm.zeroPoint, b.ifm2.map (·.fm.zeroPoint), b.ifm.scale.map (·.bits))) =
+      some (true, 59, some 6, some 4574497117455777792) := by decide +kernel
+
+example : (createElementwise floatOps Example.swap swapArch).toOption.map
+      (fun b => ((b.ifm2.bind (·.scale)).map (·.bits), b.ifm.fm.addresses, b.ifm2.map (·.fm.addresses))) =
+      some (some 4602484194877112320, [0, 0, 0, 0], some [48, 0, 0, 0]) := by decide +kernel
+
+/-- (b) `MUL(constant, x)`: reversed by the scheduler, no swap by the builder -/
+example : sched.reversedOperands = true ∧
+    (createElementwise floatOps sched schedArch).toOption.map (fun b => (b.reversed, b.ifm.fm.region, b.ifm2.map (·.fm.region))) =
+      some (true, 1, some 0) := by
+  decide +kernel
+
+/-- (c) a convolution whose scales were encoded into a stand-alone scale tensor (weights found in the compression cache):
+    the scale range is the scale tensor's own section at the scale tensor's address -/
+example : (createWeights (scale_tensor.weight.getD default) 0 scale_tensor.scale scale_tensorArch).toOption =
+    some ([⟨0, 720, 752⟩], [⟨0, 1472, 240⟩]) := by decide +kernel
+
+example : ∀ r ∈ (scale_tensor.scale.map (·.ranges)).getD [], WeightLayout.RangeNum 240 r := by
+  intro r hr
+  simp [scale_tensor] at hr
+  subst hr
+  exact ⟨by decide, by decide, by decide, Or.inr ⟨rfl, rfl⟩⟩
+
+/-- (c) two cores, two sections in the stand-alone scale tensor, buffered weights -/
+example : (createWeights (scale_tensor2.weight.getD default) 0 scale_tensor2.scale scale_tensor2Arch).toOption =
+    some ([⟨2, 368, 112⟩, ⟨2, 848, 144⟩], [⟨0, 3456, 368⟩, ⟨0, 3824, 368⟩]) := by decide +kernel
+
+/-- (c) buffered weights on two cores and the DMA that fills the buffer: both commands of one depth slice -/
+example : bufferedDma.src.purpose = .weights ∧ bufferedDma.src.ranges = (buffered.weight.getD default).ranges ∧
+    bufferedDma.dst.address = (buffered.weight.getD default).address ∧ bufferedDma.box.start.getLast? = some 0 ∧
+    (createDmaOp bufferedDma bufferedDmaArch).toOption = some (⟨0, 80, 240⟩, ⟨2, 512, 240⟩) ∧
+    (createWeights (buffered.weight.getD default) 0 none bufferedArch).toOption =
+      some ([⟨2, 560, 64⟩, ⟨2, 672, 80⟩], [⟨2, 512, 48⟩, ⟨2, 624, 48⟩]) := by decide +kernel
+
+/-- (d) 1x1 AVERAGE_POOL + RELU on an int8 tensor with zero point 127: the OFM zero point register is forced to 0, the clamp
+    is 127 = zero point + round(0 / scale); the float round trip the theorem assumes holds here -/
+example : (buildBlock floatOps clamp_pool clamp_poolArch).toOption.map
+      (fun b => ((quantiseOpt floatOps b.act.min true b.ofm.scale b.ofm.fm.zeroPoint).toOption, b.ofm.fm.zeroPoint, b.act.opType)) =
+      some (some (some 127), 0, 0) := by decide +kernel
+
+example : RoundTrip floatOps ⟨4601569897808396288, 1⟩ 2 127 := by unfold RoundTrip; decide +kernel
+
+/-- (d) ABS + RELU6 (OFM scale overridden by the ratio of the scales): the clamp stays [-31, 219] in the OFM tensor's
+    quantisation (zero point -31, 6 / scale = 250) -/
+example : (buildBlock floatOps clamp_ew clamp_ewArch).toOption.map
+      (fun b => ((quantiseOpt floatOps b.act.min true b.ofm.scale b.ofm.fm.zeroPoint).toOption,
+                 (quantiseOpt floatOps b.act.max true b.ofm.scale b.ofm.fm.zeroPoint).toOption, b.ofm.scale.map (·.bits))) =
+      some (some (some (-31)), some (some 219), some 4596435127503945728) := by decide +kernel
+
+example : specBound floatOps (some ⟨4582575640091295744, 1⟩) (-31) ⟨4618441417868443648, 0⟩ = some 219 := by
+  unfold specBound; decide +kernel
+
+/-- DMA of a lookup table: destination in SHRAM (`BASE_PTR_INDEX_MEM2MEM`) -/
+example : (createDmaOp dma_lutDma dma_lutDmaArch).toOption = some (⟨0, 16, 256⟩, ⟨0x103, 22528, 256⟩) := by decide +kernel
 
 end VelaVerif.Props.C06Build
